@@ -198,6 +198,15 @@ func (r *Report) finish(verifDir string, seed int64) int {
 			}
 		}
 	}
+	if len(remergeLog) > 0 {
+		seenRm := map[string]bool{}
+		for _, n := range remergeLog {
+			if !seenRm[n] {
+				seenRm[n] = true
+				r.Notes = append(r.Notes, n)
+			}
+		}
+	}
 	for _, n := range r.Notes {
 		fmt.Println("   note:", n)
 	}
